@@ -287,6 +287,7 @@ inductive Op
   | apiLock (pid : Bytes) | apiUnlock (pid : Bytes)
   | apiUpdatePassword (pid pw : Bytes)
   | setCookie (b : Bytes) (c : Option Cookie)
+  | seedUser (u : User)          -- harness shortcut: start from a reachable account state
 deriving Repr
 
 def stepHttp (cfg : Config) (s : State) (b : Bytes) (rt : Route) (req : Req) (fault : Option Fault) : State × Outcome :=
@@ -321,6 +322,7 @@ def step (cfg : Config) (s : State) : Op → State × Option Outcome
                                       tokens := s.store.tokens.filter (·.1 != pid) } }
      | none => s, none)
   | .setCookie b ck => (s.setBrowser b { s.browser b with rm := ck }, none)
+  | .seedUser u => ({ s with store := s.store.upsert u }, none)
 
 def run (cfg : Config) (s : State) (ops : List Op) : State := ops.foldl (fun s op => (step cfg s op).1) s
 
